@@ -5,13 +5,16 @@ META = {
     "exhaustive_when_all_discharged": False,
     "decided": [
         "09.a on the lunar-hour route, for all 60 day pillars x 24 hours: hour branch = floor((h+1)/2) mod 12, hour stem by Five Rats from the day stem, and from 23:00 the day pillar used is the next day's",
+        "09.c instant-level view (SixtyCycleHour::from_solar_time): the day pillar it reports is the next day's from 23:00; its hour pillar has branch floor((h+1)/2) mod 12 and the Five-Rats stem of that rolled day pillar; its year pillar turns at the Lichun instant and its month pillar at each Jie instant (given the instant's term)",
         "09.b LunarHour::new refuses hour > 23, minute > 59, second > 59 before it builds the day",
     ],
-    "outside": ["the instant-level view (SixtyCycleHour::from_solar_time) and that it reports the next day's pillar from 23:00", "eight characters = the four pillars of the instant (composition)",
+    "outside": ["eight characters = the four pillars of the instant (composition: EightChar::from_sixty_cycle stores what it is given)",
+                "that the lunar year of an instant is the civil year or the one before and that the instant's term is the right one (taken as given by 09.c)",
                 "the inverse search EightChar::get_solar_times (nested loops over 60-year cycles and term instants)"],
     "assumptions": [
         "09.a: the day pillar is an arbitrary pillar (LunarDay::get_sixty_cycle replaced by Obj(p), p in 0..59); its value as a function of the date is 07.c",
         "engine B object model: axioms A-index, A-pillar, A-name, A-format; listed per kernel in the evidence",
+        "09.c: instants are numbers ordered per C12 12.c; the lunar hour's pillar satisfies 09.a; the first lunar month's pillar obeys Five Tigers (08.b)",
         "09.b: LunarDay::from_ymd replaced by a stub that fails if reached; fmt_empty",
     ],
 }
@@ -26,4 +29,4 @@ def engine_b(tier, seed, scr):
     eng, err = engine(scr, "09.a/B/hour-pillar", "09.a")
     if eng is None:
         return err
-    return [pillars.k_hour_pillar(eng)]
+    return [pillars.k_hour_pillar(eng), pillars.k_day_view(eng, True)]
